@@ -5,7 +5,7 @@ def run(tier, seed):
     return cc.run_check("C01", tier, seed,
         mc_cfgs=(["ChanMC_c01q.cfg"], ["ChanMC_c01.cfg", "ChanMC_c01t.cfg"]),
         profiles=[("nodisc", 2, 100), ("default", 2, 150), ("limits", 2, 80), ("close", 2, 80), ("async", 2, 50), ("default", 3, 40)],
-        thorough_profiles=[("nodisc", 2, 1500), ("default", 2, 2500), ("limits", 2, 1000), ("close", 2, 1500), ("async", 2, 1000),
-                           ("default", 3, 600), ("async", 3, 400)],
-        families=[("holdcell", 300), ("crosslimit", 300)], thorough_families=[("holdcell", 8000), ("crosslimit", 8000)],
+        thorough_profiles=[("nodisc", 2, 800), ("default", 2, 1200), ("limits", 2, 600), ("close", 2, 800), ("async", 2, 600),
+                           ("default", 3, 300), ("async", 3, 200)],
+        families=[("holdcell", 300), ("crosslimit", 300)], thorough_families=[("holdcell", 3000), ("crosslimit", 3000)],
         assumptions=cc.COMMON_ASSUMPTIONS)
